@@ -2,6 +2,8 @@ import OxiVerif.Base.Driver
 import OxiVerif.Model.C08
 import OxiVerif.Model.C08Wire
 import OxiVerif.Spec.C07Codecs
+import OxiVerif.Model.C07Inflate
+import OxiVerif.Model.C07Ccitt
 /-!
 Driver for C07.  Request:
 
@@ -16,6 +18,8 @@ harness's reference encoders produced `data` from `plain`, one entry per filter,
   `lzw:<0|1>:<clearAt>:<pred>`      EarlyChange, Clear policy, predictor
   `fl:s<block>:<pred>` | `fl:z<hex>:<pred>`   zlib stored blocks | bytes compressed by flate2
   pred = `n` | `p<t>,<t>,…` (PNG row filter types; Columns/Colors/BitsPerComponent from `parms`) | `t` (TIFF 2)
+
+  `cc <K> <columns> <rows> <blackIs1> <data> <expected>`  hand-made CCITT vector (see docs/C07.md)
 
 The driver (1) re-encodes `plain` with the Lean reference encoders (Spec/C07Codecs.lean) and demands
 `data` byte for byte — so the Rust encoders are validated on every case; for `fl:z` it demands that
@@ -125,6 +129,20 @@ def leadingLt (zt : ZTab) (ps : ParmSpec) : Nat → List StageSpec → List Nat 
       | _, _ => false
     here || leadingLt zt ps (i + 1) ss plain
 
+/-- the model's inflate: the Lean RFC 1950/1951 decoder; only when it gives up (malformed data, never
+the case for C07's reference-encoded streams) the answer flate2 gave, carried in the request -/
+def leanExt (zt : ZTab) : Ext where
+  zlib x := match OxiVerif.Inflate.zlibInflate x with
+    | some p => .ok (some p)
+    | none => zt.ext.zlib x
+  recover := zt.ext.recover
+
+/-- every `z` entry of the request (flate2's answer) must be reproduced by the Lean inflate -/
+def inflateAgrees (zt : ZTab) : Bool :=
+  zt.z.all fun (k, v) => match v with
+    | some p => OxiVerif.Inflate.zlibInflate k == some p
+    | none => true
+
 def handle (req impl : String) : String × String :=
   match req.splitOn " " with
   | ["rt", fT, pT, eT, plT, dT, zT] =>
@@ -133,7 +151,7 @@ def handle (req impl : String) : String × String :=
       match parseZTab? data zT with
       | none => ("bad-request", "na")
       | some zt =>
-        let model := showRes (decodeStream zt.ext data fs ps)
+        let model := if inflateAgrees zt then showRes (decodeStream (leanExt zt) data fs ps) else "lean-inflate-differs-from-flate2"
         let oracle :=
           match encodeChain zt ps 0 stages plain with
           | none => "fail:harness-request-inconsistent"
@@ -149,6 +167,13 @@ def handle (req impl : String) : String × String :=
               "fail:decoded-differs:" ++ "+".intercalate why
         (model, oracle)
     | _, _, _, _, _ => ("bad-request", "na")
+  | ["cc", k, cols, rows, _, dT, want] =>
+    -- CCITTFaxDecode: hand-made T.4/T.6 vectors, oracle = the hand-computed image.  Model: the G4 stub
+    -- (`Ccitt.g4Decode`) for K = -1; the G3 decoder is not modelled (answer echoed).
+    let oracle := if impl == "ok:" ++ want then "ok" else "fail:ccitt-hand-vector-differs"
+    match k, cols.toNat?, rows.toNat?, bytesOfHex? dT with
+    | "-1", some c, some r, some data => ("ok:" ++ hexField (OxiVerif.Ccitt.g4Decode (max c 1) r data), oracle)
+    | _, _, _, _ => (impl, oracle)
   | _ => ("bad-request", "na")
 
 def main : IO Unit := runDriver handle
